@@ -358,6 +358,9 @@ def check(src, rep, tier):
         rep.guard('C15.R3', r3_no_other_escape, src, model)
         rep.guard('C15.R4', r4_eof, src, model, states)
     rep.need('C15.R5', 10)
+    from . import common
+    rep.guard('C15.R5', common.check_line_primitive, src, 'C15.R5', [M + ':Changelog.parse_changelog'],
+              'the text str() writes for a changelog read from a file object is not read back as the same lines')
     rep.guard('C15.R5', r5_normal_form, src)
 
 
